@@ -290,3 +290,40 @@ Fixpoint ms_of_rs (r : rstack) : mstack :=
   end.
 Definition ms_of_rstack (r : option rstack) : mstack :=
   match r with Some r' => ms_of_rs r' | None => MS [] end.
+
+(* ------------------------------------------------------------------ the re-split of splitInlineBox *)
+
+(* inline.go:877-902: when the last child of an inline box fits on the line but not followed by
+   the box's end padding / border / margin, it is split again at the narrower width and then at
+   its last possible break point.  A split of the text `ws` (units = what lies between two break
+   opportunities) that lets k units in returns the kept box (the first k units) and the resume
+   point k.  The box kept on the line comes from the split at k_last; `retry_step k_last k_res`
+   is the step that resumes where the split at k_res said. *)
+Section SplitRetry.
+  Variable U : Type.
+  Variable ws : list U.
+
+  Definition text_from (p : nat) : list U := skipn p ws.
+
+  Definition split_step (k : nat) : step nat U := mkStep 0 (firstn k ws) (Some k).
+
+  Definition retry_step (k_last k_res : nat) : step nat U :=
+    mkStep 0 (placed (split_step k_last)) (resume (split_step k_res)).
+End SplitRetry.
+
+(* ------------------------------------------------------------------ a cancelled layout that is restarted *)
+
+(* blocks.go:485-499: a fragmented block with break-inside: avoid that is not first on its page
+   is cancelled (nil) and laid out again, from its start, on the next page.  An out-of-flow
+   child broken by the page end has its continuation registered in context.brokenOutOfFlow;
+   makePage lays the registered continuations out at the top of the next page (pages.go), then
+   the flow.  `registered` is what the cancelled layout left in the registry for that child
+   (None: nothing); the child's text on the next page is the continuation's, then -- the block
+   being laid out from its start -- the whole text again. *)
+Section CancelRestart.
+  Variable U : Type.
+  Variable text : list U.          (* the text of the out-of-flow child *)
+
+  Definition cancel_restart_text (registered : option nat) : list U :=
+    match registered with Some p => skipn p text | None => [] end ++ text.
+End CancelRestart.
